@@ -98,7 +98,7 @@ def _rw_regex(t: OText, rx, repl, use_mask=True):
         if callable(repl):
             new = repl(grp)
         else:
-            new = re.sub(r'\\(\d)', lambda mm: grp(int(mm.group(1))), repl)
+            new = re.sub(r'\\(\d)', lambda mm: grp(int(mm.group(1))), repl.replace('\\n', '\n'))
         touched.append((t.o[m.start()], t.s[m.start():m.end()], new))
         t.replace(m.start(), m.end(), new)
         pos = m.start() + len(new)
